@@ -343,3 +343,81 @@ check("C24", "vloop+bussim+explore",
       "error (vacuity guard).",
       "'FMMUs freed' is judged on the master's slot tables. "
       "subprocess_run is not executed; the child is a model.")
+
+check("C02", "bpfvm",
+      "bounded exhaustive program x operand enumeration with Fraction "
+      "reference; complete enumeration of all 100000 five-digit decimals",
+      "Mixed fixed-point/integer expression trees (x registers, x locals, "
+      "integer leaves, 8 float constants + 1 seeded; + - * / // %, both "
+      "orders, comparisons; destinations x and integer; depth 1 complete, "
+      "depth 2 on representatives) are compiled by the real DSL and executed "
+      "in the interpreter on boundary vectors; oracle = set-valued Fraction "
+      "arithmetic (truncation or floor accepted) under the statement's "
+      "precondition. EVERY k/100000, k in 0..99999 (3 sign/integer-part "
+      "variants quick, 10 thorough) goes through Constant() in four code "
+      "positions and through ArrayGlobalVarDesc.__set__/unpack and must be "
+      "represented exactly.",
+      "Known findings: signed division lowered to unsigned, 32-bit "
+      "computation forced by a small left constant, sw zero-extension "
+      "(shared with C01).")
+check("C03", "bpfvm",
+      "exhaustive enumeration of condition trees x block skeletons x truth "
+      "assignments; interpreter + kernel differential",
+      "Atoms (six comparisons over registers, locals of all formats, 17 "
+      "constants incl. floats, bit fields, expr & mask, bare with) in three "
+      "settings on boundary pairs; all ~ & | tree shapes over 1-3 atoms "
+      "(3/16/256 shapes) with all 2^n truth assignments and body/Else "
+      "lengths {0,1,3,5}; block skeletons of depth 1-2 (quick) / 3 with "
+      "sequences, 6 condition patterns, all truth assignments of up to 9 "
+      "atoms. Every body and Else leaves a marker (flag byte + ordered log) "
+      "and a trailing marker proves continuation; the oracle evaluates the "
+      "condition trees exactly and interprets the block structure. 358k "
+      "evaluations quick, 2.7M thorough; every ~7th-11th program also runs "
+      "in the kernel.",
+      "Strictest 'fits W' reading; generator crashes (AssertionError etc.) "
+      "count as violations, deliberate refusals do not. One known finding "
+      "(narrow signed right operand zero-extended, pinned by the goldens).")
+check("C15", "vloop+bussim+explore",
+      "stateless deviation-bounded DFS over task interleavings on the real "
+      "mailbox code against a CoE server model",
+      "In-process half: multisets of 2-3 tasks (1-2 exchanges each from "
+      "sdo_read, sdo_write, read_object_entry) on one Terminal with the real "
+      "MailboxLock, warm-up exchanges so that the counter wraps; explorer "
+      "choices: holding back each task start, delivery order of in-flight "
+      "frames, response latency 0..2 polls; bound 2 (7.7k executions quick) "
+      "/ 3. Oracle on the mailbox traffic the terminal model sees: counters "
+      "follow the successor chain 1..7 (first may be 0), no request is "
+      "written while another user's exchange is open, each user gets its own "
+      "result.",
+      "The cross-process half (LockFile / ParallelMailboxLock over the "
+      "simulated POSIX layer) is covered separately when present; see "
+      "DESIGN.md section 8.")
+check("C16", "vloop+bussim",
+      "exhaustive enumeration of value lengths x mailbox sizes x transfer "
+      "kinds against an ETG.1000.6 SDO server model, bounded deviations",
+      "Direction x subindex/complete access x mailbox sizes {24,32,64,128} "
+      "(out and in) x EVERY length from 0 to first-segment capacity + 2 "
+      "segments + 8 x server style x response latency 0..2 polls x one "
+      "unrelated mail (emergency/EoE) before any response (bound 1 quick: "
+      "45k executions; bound 2-3 thorough: 450k) through the real "
+      "sdo_read/sdo_write/mbx_send/mbx_recv. Oracle: the server's object "
+      "holds exactly the written bytes / sdo_read returns exactly the "
+      "server's bytes, toggle bits alternate from 0, every mail fits the "
+      "mailbox, the server records no protocol error or abort.",
+      "Trusted: mc/coe.py (self-tested against the captured EEPROM/SDO data "
+      "of real terminals in the repository's testdata.py).")
+check("C17", "vloop+bussim",
+      "exhaustive enumeration of SII images and busy durations against an "
+      "ETG.2010 reference layout",
+      "All category-list shapes (0-2 categories quick / 0-3 thorough: 118k "
+      "shapes; types from 8, word lengths {0,1,2,3,4,5,9}), 4- and 8-byte "
+      "SII reads, busy polls at each of the three polling loops as explorer "
+      "choices, through the real read_eeprom/_eeprom_read_one; all 341 "
+      "sync-manager sequences and all PDO shapes (bit entries, padding, "
+      "8-64 bit entries, assigned/unassigned) through parse_sync_managers / "
+      "parse_pdos, via the EEPROM and via the SDO source (0x1C12/0x1C13 on "
+      "the SDO server model). Oracle: identity fields, eeprom dict, "
+      "sync-manager attributes and every PDO entry equal the generating "
+      "image.",
+      "Trusted: mc/coe.py's SII builder (rebuilds the six real EEPROM dumps "
+      "of testdata.py byte for byte).")
